@@ -13,7 +13,8 @@ CONSTANTS Threads, MaxLen, Locked, Prefill
 None == 0
 PrefillDef == <<1, 2>>     \* the cache starts at its limit
 Has(c, k) == \E j \in DOMAIN c : c[j] = k
-Without(c, k) == SelectSeq(c, LAMBDA x : x # k)
+\* a dict holds a key once: popping the key the iterator points at removes exactly that position
+RemoveAt(c, i) == SubSeq(c, 1, i - 1) \o SubSeq(c, i + 1, Len(c))
 
 (* --algorithm CacheEvict {
   variables cache = Prefill, lock = None,
@@ -28,7 +29,7 @@ Without(c, k) == SelectSeq(c, LAMBDA x : x # k)
    pop:       if (Len(cache) # itsize \/ itpos = 0) {            \*   c.pop(next(it))
                  result[self] := "RuntimeError"; lock := IF lock = self THEN None ELSE lock; goto Done
               } else {
-                 cache := Without(cache, cache[itpos]); itpos := itpos - 1;
+                 cache := RemoveAt(cache, itpos); itpos := itpos - 1;
               }
            };
    ins:    cache := IF Has(cache, key) THEN cache ELSE Append(cache, key);   \* c[t] = v
@@ -88,7 +89,7 @@ pop(self) == /\ pc[self] = "pop"
                         /\ lock' = (IF lock = self THEN None ELSE lock)
                         /\ pc' = [pc EXCEPT ![self] = "Done"]
                         /\ UNCHANGED << cache, itpos >>
-                   ELSE /\ cache' = Without(cache, cache[itpos[self]])
+                   ELSE /\ cache' = RemoveAt(cache, itpos[self])
                         /\ itpos' = [itpos EXCEPT ![self] = itpos[self] - 1]
                         /\ pc' = [pc EXCEPT ![self] = "loop"]
                         /\ UNCHANGED << lock, result >>
